@@ -43,12 +43,15 @@ for wid in ids:
             dirs = {os.path.dirname(t) for t in touched}
             rel = set()
             for dd in dirs:
-                if dd.startswith('headerfs'): rel |= {'C07','C08','C01'}
+                if dd.startswith('headerfs'): rel |= {'C07','C08','C01','C14'}
                 elif dd.startswith('banman'): rel |= {'C13'}
                 elif dd.startswith('cache'): rel |= {'C16'}
                 elif dd.startswith('pushtx'): rel |= {'C15'}
-                elif dd == '': rel |= {'C01','C02','C03','C05','C06','C09','C10','C19'}
-            rel.add(wid)
+                elif dd.startswith('blockntfns'): rel |= {'C11','C19'}
+                elif dd.startswith('chainimport'): rel |= {'C14'}
+                elif dd.startswith('query'): rel |= {'C12'}
+                elif dd == '': rel |= {'C01','C02','C03','C05','C06','C09','C10','C11','C13','C19'}
+            rel.add(wid.rstrip('b'))
             for pid in [x for x in props if x in rel]:
                 rr = sh(f'cd /verif && ./check {pid} --no-evidence')
                 if rr.returncode == 1 and 'VIOLATION' in rr.stdout:
@@ -61,7 +64,7 @@ for wid in ids:
         os.makedirs(out, exist_ok=True)
         shutil.copy(f'{d}/patch.diff', out); shutil.copy(f'{d}/demo_test.go', out)
         meta = json.load(open(f'{d}/meta.json'))
-        meta.update({'seeded_for': wid, 'confirmed_by_builder': {'demo_fails_with_patch': True, 'demo_passes_without_patch': True,
+        meta.update({'seeded_for': wid.rstrip('b'), 'confirmed_by_builder': {'demo_fails_with_patch': True, 'demo_passes_without_patch': True,
             'existing_stable_tests_pass_with_patch': True, 'note': 'confirm_seeded.sh in the scratch worktree; root-package failures limited to the four btcd-dependent tests that are not in the baseline' if btcd_only else 'confirm_seeded.sh in the scratch worktree'},
             'checks_run': sorted(rel & set(props)), 'detected_by': detected, 'failed_obligations': obligations, 'checks_undecided_exit2': broken})
         json.dump(meta, open(f'{out}/meta.json', 'w'), indent=1)
